@@ -106,17 +106,24 @@ def reference_decode(stream, enc):
     return bytes(out)
 
 
-def deliver(encoded, cuts, enc, bufsize):
+def deliver(encoded, cuts, enc, bufsize, gaps=()):
     from pyrtcm.socketwrapper import SocketWrapper
 
-    sock = ScriptedSocket(streams.split(encoded, cuts) + ["close"])
-    sock.budget = 4 * len(encoded) + 64
+    events = []
+    for k, sg in enumerate(streams.split(encoded, cuts)):
+        events.append(sg)
+        if gaps and gaps[k % len(gaps)]:
+            events.append(["timeout", "oserror:blocking"][gaps[k % len(gaps)] - 1])  # a gap: nothing is lost, the caller polls again
+    sock = ScriptedSocket(events + ["close"])
+    sock.budget = 4 * len(encoded) + 4 * len(events) + 64
     try:
         w = SocketWrapper(sock, encoding=ENC[enc], bufsize=bufsize)
         out = bytearray()
         while True:
             r = w.read(1)
             if not r:
+                if not sock.closed_by_peer:
+                    continue  # timeout / transient error: poll again (bounded by the socket's call budget)
                 break
             out += r
             n = len(w.buffer)
@@ -141,7 +148,7 @@ def cut_classes(cuts, spans):
 
 def run_one(case, encoded, spans, expected, cuts, bufsize):
     try:
-        got = deliver(encoded, cuts, case["enc"], bufsize)
+        got = deliver(encoded, cuts, case["enc"], bufsize, case.get("gaps") or ())
     except Fail:
         raise
     except Exception as e:  # pylint: disable=broad-except
@@ -162,6 +169,10 @@ def o_chunked(case):
     cls = set([f"enc-{case['enc']}", mode])
     if "+" in case["enc"]:
         cls.add("layered-compression")
+    if any(case.get("gaps") or []):
+        cls.add("timeouts-between-receives")
+    if len(expected) > 1024 * 1024:
+        cls.add("chunk-decoding-to-more-than-1MiB")
     if case["enc"] != "none" and case.get("wbits", 15) != 15:
         cls.add("small-compression-window")
     if case["enc"] != "none" and any(c == "" for c in case["chunks"]):
@@ -264,7 +275,20 @@ def s_chunked(draw, tier):
     if mode == "generated":
         case["cuts"] = draw(streams.partitions(max(n, 2)))
         case["bufsize"] = draw(st.sampled_from([1, 2, 3, 5, 16, 64, 4096, 4096]))
+        case["gaps"] = draw(st.one_of(st.just([]), st.lists(st.sampled_from([0, 1, 1, 2]), min_size=1, max_size=5)))
     return case
+
+
+def e_big(tier, shard, nshards):
+    """one compressed chunk of a few KiB on the wire that decodes to more than 1 MiB (thorough: 5 MiB), then a small one"""
+    k = 0
+    for enc in ("gzip", "compress", "deflate"):
+        for size in ([1200 * 1024] if tier == "quick" else [1200 * 1024, 5 * 1024 * 1024]):
+            k += 1
+            if k % nshards != shard:
+                continue
+            body = (b"RTCM" * 256) * (size // 1024)
+            yield {"chunks": [body.hex(), b"tail".hex()], "enc": enc, "hexcase": [0], "terminator": True, "mode": "generated", "cuts": [100, 2000], "bufsize": 4096, "gaps": []}
 
 
 def _short(c):
@@ -278,10 +302,11 @@ SUBS = [
         "chunked_partitions",
         o_chunked,
         strategy=s_chunked,
+        enum=e_big,
         examples=(150, 3000),
         exhaustive=True,
         rule="partitions enumerated completely for short streams (all compositions for n <= 15; all 1- and 2-cut partitions for n <= 120), generated beyond; non-trivial = cut inside size line / chunk data / terminating CRLF",
-        need={"cut-in-size-line": 1, "cut-in-chunk-data": 1, "cut-inside-terminating-crlf": 1, "cut-between-data-and-crlf": 1, "enc-gzip": 1, "enc-deflate": 1, "enc-compress": 1, "all_partitions": 1, "small-compression-window": 1, "layered-compression": 1},
+        need={"cut-in-size-line": 1, "cut-in-chunk-data": 1, "cut-inside-terminating-crlf": 1, "cut-between-data-and-crlf": 1, "enc-gzip": 1, "enc-deflate": 1, "enc-compress": 1, "all_partitions": 1, "small-compression-window": 1, "layered-compression": 1, "timeouts-between-receives": 1, "chunk-decoding-to-more-than-1MiB": 1},
         sample=_short,
     ),
     __import__("pv.fuzz.campaign", fromlist=["make"]).make("C12", ("C12",), runs=(15000, 400000), shards=(4, 16)),
